@@ -35,7 +35,7 @@ import (
 func TestMain(m *testing.M) {
 	h.Observe("build", buildTag)
 	h.Observe("GODEBUG", os.Getenv("GODEBUG"))
-	h.Main(m, ref.SelfTestSM3, ref.SelfTestSM2, selfTestReader, selfTestCurves, selfTestSM9)
+	h.Main(m, ref.SelfTestSM3, ref.SelfTestSM2, selfTestReader, selfTestCurves, selfTestSM9, selfTestSM9KAP)
 }
 
 // outcome is what an operation returned, in a canonical form.
